@@ -259,6 +259,10 @@ func (r *c08Run) checkIndexesOn(ctx sdk.Context, what string) {
 		}
 	}
 	for al, d := range alias {
+		// one name, one meaning: an alias of one pair is never the denomination of a pair
+		if _, isDenom := byDenom[al]; isDenom {
+			bad("%q is an alias of %s and at the same time the denomination of a registered pair", al, d)
+		}
 		if _, ok := byDenom[d]; !ok {
 			bad("alias %s points to %s which is no registered pair", al, d)
 			continue
@@ -296,6 +300,7 @@ func (r *c08Run) run() {
 	r.checkBooks("setup")
 	r.targetedProbes()
 	r.softFailProbe()
+	r.aliasClashProbe()
 	if r.broken {
 		r.broken = false
 	}
@@ -688,6 +693,32 @@ func (r *c08Run) softFailProbe() {
 			r.res.Violate("C08/soft-failing-token/conversion-outcome", "%s", what)
 		}
 		r.checkBooksOn(ctx, what)
+	}
+}
+
+// aliasClashProbe: governance gives a pair a lower-case alias, then somebody asks to register an
+// ERC-20 whose symbol differs from that alias only by case (the denomination of a registered
+// ERC-20 is its lower-cased symbol). The indexes must keep describing one set of pairs.
+func (r *c08Run) aliasClashProbe() {
+	e, c := r.e, r.e.C
+	ctx := c.Branch()
+	alias := "wxyz"
+	if res := c.MsgOn(ctx, &erc20types.MsgUpdateDenomAlias{Authority: chain.GovAuthority(), Denom: e.USDT.Base, Alias: alias}); !res.OK() {
+		r.logf("alias probe: %s", res.ErrString())
+		return
+	}
+	r.checkIndexesOn(ctx, "alias "+alias+" added to "+e.USDT.Base)
+	for _, sym := range []string{"WXYZ", "wxyz", "Wxyz"} {
+		b, _ := ctx.CacheContext()
+		er := c.EthTxOn(b, e.Deployer, nil, chain.InitCode(evmasm.SoftFailToken(sym)), nil, 0)
+		if er.Failed() {
+			continue
+		}
+		res := c.MsgOn(b, &erc20types.MsgRegisterERC20{Authority: chain.GovAuthority(), Erc20Address: er.Contract.Hex()})
+		r.res.Count("alias_clash_probes", 1)
+		what := fmt.Sprintf("register ERC-20 with symbol %q while %q is an alias of %s -> ok=%v %s", sym, alias, e.USDT.Base, res.OK(), short(res.ErrString()))
+		r.logf(what)
+		r.checkIndexesOn(b, what)
 	}
 }
 
